@@ -33,6 +33,11 @@ class Config:
         self.indist = 1.0
         self.backend = "permanent"
         self.loss = False
+        self.reject_all = False     # quick sampler: a post-selection that no output passes (reading the distribution must raise)
+
+    @property
+    def valid(self):
+        return len(self.input) == 3 and not self.reject_all
 
     def circuit(self):
         import lightworks as lw
@@ -58,10 +63,18 @@ STEPS = {
     "input": lambda cfg: setattr(cfg, "input", [0, 1, 1] if cfg.input == [1, 0, 1] else [1, 0, 1]),
     "herald-photons": lambda cfg: setattr(cfg, "herald", (1 - cfg.herald[0], cfg.herald[1], cfg.herald[2]) if cfg.herald else (1, 3, 3)),
     "herald-mode": lambda cfg: setattr(cfg, "herald", (cfg.herald[0], cfg.herald[1], 2 if cfg.herald[2] == 3 else 3) if cfg.herald else (0, 3, 2)),
+    # photon number and output mode change together: a full output state can satisfy the old and the new herald on different modes
+    "herald-both": lambda cfg: setattr(cfg, "herald", (1 - cfg.herald[0], cfg.herald[1], 2 if cfg.herald[2] == 3 else 3) if cfg.herald else (1, 3, 2)),
+    # same total photon number before and after, herald on another mode with another photon number: full output states are shared
+    "herald-swap": lambda cfg: (setattr(cfg, "herald", (0, 3, 2)), setattr(cfg, "input", [1, 1, 1])) if (cfg.herald and cfg.herald[0] == 1) else
+                               (setattr(cfg, "herald", (1, 3, 3)), setattr(cfg, "input", [1, 0, 1])),
     "brightness": lambda cfg: setattr(cfg, "brightness", 0.8 if cfg.brightness == 1.0 else 1.0),
     "indist": lambda cfg: setattr(cfg, "indist", 0.9 if cfg.indist == 1.0 else 1.0),
     "backend": lambda cfg: setattr(cfg, "backend", "slos" if cfg.backend == "permanent" else "permanent"),
     "loss": lambda cfg: setattr(cfg, "loss", not cfg.loss),
+    # reconfigurations after which reading must FAIL (on a fresh object too): a failed recalculation must not leave the cache looking up to date
+    "bad-input": lambda cfg: setattr(cfg, "input", [1, 0, 1, 1, 0]),
+    "reject-all": lambda cfg: setattr(cfg, "reject_all", not cfg.reject_all),
 }
 
 
@@ -73,8 +86,15 @@ def apply_live(obj, cfg, step, kind):
         cfg.p_live.set(cfg.param)
     elif step == "edit-circuit":
         obj.circuit.ps(1, 0.5 + cfg.extra_ps - 1)
-    elif step == "input":
+    elif step in ("input", "bad-input"):
         obj.input_state = lw.State(cfg.input)
+    elif step == "herald-swap":
+        c = cfg.circuit()
+        cfg.p_live = cfg.p
+        obj.circuit = c
+        obj.input_state = lw.State(cfg.input)
+    elif step == "reject-all":
+        obj.post_select = (lambda s: False) if cfg.reject_all else (lambda s: True)
     elif step == "brightness" and kind == "sampler":
         obj.source.brightness = cfg.brightness
     elif step == "indist" and kind == "sampler":
@@ -95,7 +115,7 @@ def fresh(cfg, kind):
     if kind == "sampler":
         return emulator.Sampler(c, lw.State(cfg.input), source=emulator.Source(brightness=cfg.brightness, purity=cfg.purity, indistinguishability=cfg.indist),
                                 backend=cfg.backend)
-    return emulator.QuickSampler(c, lw.State(cfg.input))
+    return emulator.QuickSampler(c, lw.State(cfg.input), **({"post_select": (lambda s: False)} if cfg.reject_all else {}))
 
 
 def dist_equal(a, b):
@@ -133,10 +153,10 @@ def reads(obj, kind, first=None):
     return out
 
 
-def compare_reads(a, b):
+def compare_reads(a, b, valid=True):
     for r in a:
         x, y = a[r], b.get(r)
-        if isinstance(y, str):
+        if isinstance(y, str) and valid:
             return f"{r} fails on a freshly created object: {y}"
         if isinstance(x, str) or isinstance(y, str):
             if x != y:
@@ -161,22 +181,38 @@ def run_history(kind, steps, first_read):
     cfg = Config()
     live = fresh(cfg, kind)
     cfg.p_live = cfg.p
+    warm_all = first_read == "warm-all"       # every kind of read (also the sampling calls, which fill lazily built tables) after every step
+    if warm_all:
+        first_read = None
+        reads(live, kind)
     if first_read is None:
         live.probability_distribution         # warm cache before the first step
+    import copy
     for st in steps:
+        before = copy.copy(cfg.__dict__)
         STEPS[st](cfg)
-        if st in ("herald-photons", "herald-mode") and len(cfg.input) != 3:
-            pass
-        apply_live(live, cfg, st, kind)
+        try:
+            apply_live(live, cfg, st, kind)
+        except Exception:  # noqa: BLE001
+            if st not in ("bad-input", "reject-all"):
+                raise
+            cfg.__dict__.update(before)       # the setter refused the value: the configuration is the previous one
         if first_read is None:
-            live.probability_distribution
+            try:
+                live.probability_distribution
+            except Exception:  # noqa: BLE001
+                if cfg.valid:
+                    raise
+            if warm_all:
+                reads(live, kind)
     a = reads(live, kind, first_read)
     b = reads(fresh(cfg, kind), kind, first_read)
-    return compare_reads(a, b)
+    return compare_reads(a, b, cfg.valid)
 
 
 def histories(tier, kind):
-    steps = list(STEPS) if kind == "sampler" else ["new-unitary", "edit-circuit", "param", "input", "herald-photons", "herald-mode", "loss"]
+    steps = ([s_ for s_ in STEPS if s_ != "reject-all"] if kind == "sampler" else
+             ["new-unitary", "edit-circuit", "param", "input", "herald-photons", "herald-mode", "herald-both", "herald-swap", "loss", "bad-input", "reject-all"])
     out = [()]
     out += [(s,) for s in steps]
     out += list(itertools.permutations(steps, 2))
@@ -266,7 +302,7 @@ def unit(tier="quick", seed=0, kind="sampler", shard=0, nshards=1):
         return dict(status="ok", obligations=[o], summary="analyzer: 3 call sequences")
     hs = [h for k, h in enumerate(histories(tier, kind)) if k % nshards == shard]
     for steps in hs:
-        for first_read in (None, "sample", "sample_N_outputs"):
+        for first_read in (None, "sample", "sample_N_outputs", "warm-all"):
             n += 1
             label = json.dumps([kind, list(steps), first_read])
             sample = sample or label
